@@ -69,7 +69,7 @@ class Lock:
         self.f.close()
 
 
-def coq_make(targets=None, timeout=None):
+def coq_make(targets=None, timeout=None, keep_going=False):
     """full .vo build of the development (or of some targets), incremental.  Returns (ok, output).
     The shared lock is held only while _CoqProject / Makefile / dependencies are regenerated; the build itself
     runs outside it, with a memory limit per coqc (VERIF_COQ_MEM_KB, default 12 GB) and a time limit
@@ -84,7 +84,7 @@ def coq_make(targets=None, timeout=None):
             if rc != 0:
                 return False, o
         sh("make .Makefile.d", cwd=COQ, timeout=300)
-    cmd = "ulimit -v %d; exec make -j%s %s" % (mem, os.environ.get("VERIF_COQ_JOBS", "8"), " ".join(targets or []))
+    cmd = "ulimit -v %d; exec make %s-j%s %s" % (mem, "-k " if keep_going else "", os.environ.get("VERIF_COQ_JOBS", "8"), " ".join(targets or []))
     rc, o = sh(cmd, cwd=COQ, timeout=timeout)
     return rc == 0, o
 
